@@ -41,7 +41,8 @@ class World:
                        "self_add", "add_inside_units_context", "constructed_under_units", "refused_temperature",
                        "refused_axis", "value_defined_right_operand", "sum_of_sums", "spectral_density_sum",
                        "even_odd_checked", "measure_checked", "copy_of_composite", "public_add_to_data", "template_dict_reused",
-                       "windowed_transform_query", "query_inside_units_context", "same_numbers_under_different_units"]
+                       "windowed_transform_query", "query_inside_units_context", "same_numbers_under_different_units",
+                       "numerical_spectral_density_operand", "matrix_filled_inside_units_context"]
     required_faults = ["different_temperature", "different_axis"]
     components = {
         "real": ["CorrelationFunction / SpectralDensity constructors, __add__, __iadd__, add_to_data(2), copy",
@@ -69,7 +70,7 @@ class World:
         sdrun = rng.random() < 0.3
         for _ in range(npre):
             ops.append(self._gen_new(rng, kf, sdrun))
-        kinds = ["new", "add", "add", "add", "iadd", "selfadd", "copy", "valdef", "measure", "measure", "evenodd", "addctx", "pubadd", "query"]
+        kinds = ["new", "add", "add", "add", "iadd", "selfadd", "copy", "valdef", "measure", "measure", "evenodd", "addctx", "pubadd", "query", "sdfromcf", "cfm"]
         # swarm member: the same NUMBERS handed over under different units (30 means 30 1/cm here and 30 THz there)
         palette = rng.random() < 0.3
         if palette:
@@ -85,6 +86,8 @@ class World:
                     o["palette"] = rng.randrange(2)
                     o["T"] = 0
                 ops.append(o)
+            elif k == "cfm":
+                ops.append({"op": "cfm", "i": rng.randrange(16), "j": rng.randrange(16), "unit": rng.randrange(len(UNITS)), "unit2": rng.randrange(len(UNITS))})
             elif k == "query":
                 ops.append({"op": "query", "i": rng.randrange(16), "q": rng.randrange(16), "unit": rng.randrange(len(UNITS))})
             elif k in ("add", "iadd", "pubadd"):
@@ -484,6 +487,60 @@ class Runner:
         self.ctx.probe("query_inside_units_context") if u not in ("int", "1/fs") else None
         self.ctx.ev(i, "query", a, q, u, raised)
         self.ctx.cov("query", A.kind, q, raised, min(len(A.comps), 3))
+
+    def op_sdfromcf(self, i, op):
+        """A spectral density obtained numerically from a correlation function (cf.get_SpectralDensity()): a legal
+        right-hand operand whose data are what they are, not what its parameters would give."""
+        a = self.pick(op["i"], lambda e: e.kind == "cf" and e.axis in (0, 1) and all(c[0] == "spec" and c[1]["ftype"] == "OverdampedBrownian" for c in e.comps))
+        if a is None:
+            return
+        A = self.pool[a]
+        try:
+            sd = A.real.get_SpectralDensity()
+        except Exception as e:
+            raise Violation("conversion-raises", "op %d: get_SpectralDensity: %s: %s" % (i, type(e).__name__, e))
+        data = numpy.array(sd.data).copy()
+        lamb = float(sd.lamb)
+        n = self.add_entry("sd", sd, [("values", data, lamb)], A.T, A.axis)
+        self.ctx.probe("numerical_spectral_density_operand")
+        self.ctx.ev(i, "sdfromcf", a, n)
+        self.ctx.cov("sdfromcf", min(len(A.comps), 3))
+
+    def op_cfm(self, i, op):
+        """Functions (sums included) handed to a CorrelationFunctionMatrix inside a units context: the matrix must report
+        the function's data and the sum of the components' reorganisation energies."""
+        from quantarhei.qm.corfunctions.cfmatrix import CorrelationFunctionMatrix
+        qr = self.qr
+        a = self.pick(op["i"], lambda e: e.kind == "cf")
+        if a is None:
+            return
+        A = self.pool[a]
+        b = self.pick(op["j"], lambda e: e.kind == "cf" and e.T == A.T and AXGROUP[e.axis] == AXGROUP[A.axis])
+        B = self.pool[b] if b is not None else A
+        u, u2 = UNITS[op["unit"] % len(UNITS)], UNITS[op["unit2"] % len(UNITS)]
+        try:
+            with qr.energy_units(u):
+                cfm = CorrelationFunctionMatrix(self.axes[A.axis], nob=2)
+                cfm.set_correlation_function(A.real, [(0, 0)])
+                cfm.set_correlation_function(B.real, [(1, 1)])
+            with qr.energy_units(u2):
+                got = [cfm.get_reorganization_energy(0, 0), cfm.get_reorganization_energy(1, 1)]
+                exp = [float(self.m.convert_energy_2_current_u(self.expected(A)[1])), float(self.m.convert_energy_2_current_u(self.expected(B)[1]))]
+                c0 = numpy.array(cfm.get_coft(0, 0))
+        except Violation:
+            raise
+        except Exception as e:
+            raise Violation("matrix-raises", "op %d: CorrelationFunctionMatrix under %r: %s: %s" % (i, u, type(e).__name__, e))
+        for g, x in zip(got, exp):
+            check(abs(g - x) <= 1e-9 * max(abs(x), 1e-300), "sum-reorganisation-energy",
+                  lambda: "op %d: matrix filled under %r reports reorganisation energy %r under %r, the components' sum is %r" % (i, u, g, u2, x))
+        ex = self.expected(A)[0]
+        check(close(c0, ex, rtol=RT, scale=float(numpy.max(numpy.abs(ex)))), "sum-data-equals-sum-of-components",
+              lambda: "op %d: matrix element (0,0): %s" % (i, maxdiff(c0, ex)))
+        if u not in ("int", "1/fs"):
+            self.ctx.probe("matrix_filled_inside_units_context")
+        self.ctx.ev(i, "cfm", a, b, u, u2)
+        self.ctx.cov("cfm", u not in ("int", "1/fs"), min(len(A.comps), 3))
 
     def op_valdef(self, i, op):
         a = self.pick(op["i"], lambda e: e.kind == "cf")
